@@ -30,7 +30,7 @@ func checkC08(c *Ctx, w *World) {
 	if grs, gsr := pl.f("(*gcpBalancer).getReadySubConnRef"), pl.f("(*gcpPicker).getSubConnRef"); grs != nil && gsr != nil {
 		lookupRules(pl, grs, gsr, func(string) string { return "C08.lookup-first" }, true)
 	}
-	importPremises(c, w, "C04", checkC04, []string{"C04.pair", "C04.picker", "C04.publish", "C04.eval"}, "C08.states")
+	importPremises(c, w, "C04", checkC04, []string{"C04.pair", "C04.picker", "C04.publish", "C04.eval", "C04.refresh-complete"}, "C08.states")
 
 	p := pl.p
 	grs := pl.f("(*gcpBalancer).getReadySubConnRef")
